@@ -4,16 +4,35 @@
 -/
 import Gobptree.Proofs.CSStepAux
 import Gobptree.Proofs.CSStatic
+import Gobptree.Proofs.CSNoDel
 
 namespace Gobptree.Conc
 open Gobptree
 
 variable {K V : Type}
 
+/-- no client program contains a `Delete` -/
+def NoDelete (progs : List (List (COp K V))) : Prop := ∀ p ∈ progs, ∀ op ∈ p, op.isDel = false
+
+/-- a thread that is not inside a Delete and whose program contains none -/
+def NoDelThread (th : Thread K V) : Prop := isDelPark th.park = false ∧ ∀ op ∈ th.prog, op.isDel = false
+
 structure CInv (c : Config K V) : Prop where
   s     : SInv c
   disc  : ∀ th ∈ c.threads, DiscOk th
   alive : c.dead = false
+  /-- the order is at least 4, or no thread ever runs a Delete (order 2 supports everything
+      but Delete) -/
+  del4  : 4 ≤ c.tree.order ∨ ∀ th ∈ c.threads, NoDelThread th
+
+/-- a thread parked inside a Delete witnesses `4 ≤ order` -/
+theorem CInv.four {c : Config K V} (h : CInv c) {th : Thread K V} (hm : th ∈ c.threads)
+    (hd : isDelPark th.park = true) : 4 ≤ c.tree.order := by
+  rcases h.del4 with h4 | hnd
+  · exact h4
+  · have := (hnd th hm).1
+    rw [hd] at this
+    cases this
 
 /-- what a step of thread `t` leaves alone: every node that existed before and whose mutex the
     thread does not hold during the step keeps its own fields; the root pointer moves only if
